@@ -510,4 +510,195 @@ theorem joinFrom_prefix (b : St) (fails : List JoinAttempt) (hf : ∀ a ∈ fail
       · subst hn; simp
       · simp [hn]
 
+/-! ### classification of dials, the first decisive attempt (used by `Props/C18`) -/
+
+theorem classify_retryable_iff (d : Dial) :
+    classify d = .retryable ↔
+      d = .noResponse ∨ ∃ c, c ∈ retryableStatusCodes ∧ d = .status c := by
+  cases d with
+  | ok => simp [classify]
+  | noResponse => simp [classify]
+  | status c =>
+    by_cases h : retryableStatusCodes.contains c = true
+    · simp only [classify, h, if_true, true_iff]
+      right; exact ⟨c, by simpa using h, rfl⟩
+    · simp only [classify, h]
+      constructor
+      · intro h'; cases h'
+      · rintro (h' | ⟨c', hc', h'⟩)
+        · cases h'
+        · cases h'; exact absurd (by simpa using hc') h
+
+theorem classify_permanent_iff (d : Dial) (code : Nat) :
+    classify d = .permanent code ↔ d = .status code ∧ code ∉ retryableStatusCodes := by
+  cases d with
+  | ok => simp [classify]
+  | noResponse => simp [classify]
+  | status c =>
+    by_cases h : retryableStatusCodes.contains c = true
+    · simp only [classify, h, if_true]
+      constructor
+      · intro h'; cases h'
+      · rintro ⟨h1, h2⟩; cases h1; exact absurd (by simpa using h) h2
+    · simp only [classify, h]
+      constructor
+      · intro h'; cases h'; exact ⟨rfl, by simpa using h⟩
+      · rintro ⟨h1, _⟩; cases h1; rfl
+
+theorem classify_connected_iff (d : Dial) : classify d = .connected ↔ d = .ok := by
+  cases d with
+  | ok => simp [classify]
+  | noResponse => simp [classify]
+  | status c =>
+    simp only [classify]
+    split <;> simp
+
+/-- what the first attempt that is not simply retried makes `connect` return -/
+def Attempt.verdict (a : Attempt) : Result :=
+  match classify a.dial with
+  | .connected => .connected
+  | .permanent c => if a.ctxErr then .errCtx else .errPermanent c
+  | .retryable => if a.ctxErr || a.cancelInWait then .errCtx else .stillRetrying
+
+theorem verdict_stillRetrying_iff (a : Attempt) : a.verdict = .stillRetrying ↔ a.retried := by
+  unfold Attempt.verdict Attempt.retried
+  cases hc : classify a.dial with
+  | connected => simp
+  | permanent c => cases a.ctxErr <;> simp
+  | retryable => cases a.ctxErr <;> cases a.cancelInWait <;> simp
+
+/-- the loop returns at the first attempt that is not simply retried -/
+theorem connectFrom_decisive (b : St) (hb : b.retries = 0) (a : Attempt) (ha : ¬ a.retried)
+    (rest : List Attempt) (n : Nat) (ws : List Nat) (ab : Nat) :
+    (connectFrom b (a :: rest) n ws ab).result = a.verdict ∧
+    (connectFrom b (a :: rest) n ws ab).attempts = n + 1 ∧
+    (connectFrom b (a :: rest) n ws ab).aborts = ab ∧
+    (connectFrom b (a :: rest) n ws ab).waits =
+      (if classify a.dial = .retryable ∧ a.ctxErr = false then ws ++ [jitterWait b a.jitter] else ws) := by
+  have hs := step_of_ok b (jitterWait b a.jitter) (exhausted_of_retries_zero b hb)
+    (okWait_jitterWait b a.jitter)
+  unfold Attempt.retried at ha
+  unfold Attempt.verdict
+  cases hc : classify a.dial with
+  | connected => simp [connectFrom, hc]
+  | permanent c =>
+    cases hx : a.ctxErr <;> simp [connectFrom, hc, hx]
+  | retryable =>
+    cases hx : a.ctxErr
+    · cases hw : a.cancelInWait
+      · exact absurd ⟨hc, hx, hw⟩ ha
+      · simp [connectFrom, hc, hx, hw, hs]
+    · simp [connectFrom, hc, hx]
+
+/-- a list of attempts is all retried, or has a first attempt that is not -/
+theorem attempts_split (as : List Attempt) :
+    (∀ a ∈ as, a.retried) ∨
+    ∃ fails a rest, as = fails ++ a :: rest ∧ (∀ x ∈ fails, x.retried) ∧ ¬ a.retried := by
+  induction as with
+  | nil => left; intro a ha; cases ha
+  | cons a as ih =>
+    by_cases ha : a.retried
+    · rcases ih with h | ⟨fails, x, rest, h1, h2, h3⟩
+      · left; intro y hy
+        rcases List.mem_cons.mp hy with rfl | hy
+        · exact ha
+        · exact h y hy
+      · right
+        refine ⟨a :: fails, x, rest, by rw [h1]; rfl, ?_, h3⟩
+        intro y hy
+        rcases List.mem_cons.mp hy with rfl | hy
+        · exact ha
+        · exact h2 y hy
+    · right; exact ⟨[], a, as, rfl, (by intro x hx; cases hx), ha⟩
+
+/-- `connectFrom` over retried attempts followed by a decisive one -/
+theorem connectFrom_first (b : St) (hb : b.retries = 0) (fails : List Attempt)
+    (hf : ∀ x ∈ fails, x.retried) (a : Attempt) (ha : ¬ a.retried) (rest : List Attempt) :
+    (connectFrom b (fails ++ a :: rest) 0 [] 0).result = a.verdict ∧
+    (connectFrom b (fails ++ a :: rest) 0 [] 0).attempts = fails.length + 1 ∧
+    (connectFrom b (fails ++ a :: rest) 0 [] 0).aborts = 0 := by
+  obtain ⟨b', _, hb', h⟩ := connectFrom_prefix b hb fails hf (a :: rest) 0 [] 0
+  rw [h]
+  obtain ⟨h1, h2, h3, _⟩ := connectFrom_decisive b' hb' a ha rest (0 + fails.length)
+    ([] ++ prefixWaits b fails) 0
+  exact ⟨h1, by rw [h2]; omega, h3⟩
+
+theorem connectFrom_all_retried (b : St) (hb : b.retries = 0) (as : List Attempt)
+    (hf : ∀ x ∈ as, x.retried) :
+    connectFrom b as 0 [] 0 = ⟨.stillRetrying, as.length, prefixWaits b as, 0⟩ ∧
+    ∃ b', runWaits b (prefixWaits b as) = some b' := by
+  obtain ⟨b', hr, _, h⟩ := connectFrom_prefix b hb as hf [] 0 [] 0
+  rw [List.append_nil] at h
+  rw [h]
+  exact ⟨by simp [connectFrom], b', hr⟩
+
+/-! ### `JoinOnStartup`: bounds -/
+
+theorem joinFrom_bounds (b : St) (hr : b.retries ≠ 0) (hb : b.attempts ≤ b.retries + 1)
+    (as : List JoinAttempt) (n : Nat) (ws : List Nat) (le : Option Nat) :
+    (joinFrom b as n ws le).attempts ≤ n + as.length ∧
+    (joinFrom b as n ws le).attempts + b.attempts ≤ n + b.retries + 2 ∧
+    (joinFrom b as n ws le).result ≠ .badJitter := by
+  induction as generalizing b n ws le with
+  | nil => simp [joinFrom]; omega
+  | cons a as ih =>
+    simp only [joinFrom]
+    by_cases hok : a.ok = true
+    · simp [hok]; omega
+    · simp only [hok, Bool.false_eq_true, if_false]
+      by_cases hex : exhausted b = true
+      · rw [(step_abort b _).mpr hex]; simp; omega
+      · have hex' : exhausted b = false := by simpa using hex
+        rw [step_of_ok b _ hex' (okWait_jitterWait b a.jitter)]
+        simp only
+        by_cases hw : a.cancelInWait = true
+        · simp [hw]; omega
+        · simp only [hw, Bool.false_eq_true, if_false]
+          have hlt : ¬ (b.retries ≠ 0 ∧ b.retries < b.attempts) := by
+            rw [← exhausted_iff]; simp [hex']
+          have := ih { b with attempts := b.attempts + 1, last := jitterWait b a.jitter } hr
+            (by show b.attempts + 1 ≤ b.retries + 1; omega) (n + 1) (ws ++ [jitterWait b a.jitter]) (some n)
+          obtain ⟨i1, i2, i3⟩ := this
+          refine ⟨by simp only [List.length_cons]; omega, ?_, i3⟩
+          have e : ({ b with attempts := b.attempts + 1, last := jitterWait b a.jitter } : St).attempts
+            = b.attempts + 1 := rfl
+          have e2 : ({ b with attempts := b.attempts + 1, last := jitterWait b a.jitter } : St).retries
+            = b.retries := rfl
+          rw [e, e2] at i2
+          omega
+
+/-- after a prefix of failed joins, the next join decides -/
+theorem joinFrom_after_prefix (b : St) (hr : b.retries ≠ 0) (fails : List JoinAttempt)
+    (hf : ∀ a ∈ fails, a.retried) (hg : b.attempts + fails.length ≤ b.retries + 1)
+    (a : JoinAttempt) (rest : List JoinAttempt) (n : Nat) (ws : List Nat) (le : Option Nat) :
+    ∃ b', runWaits b (joinPrefixWaits b fails) = some b' ∧
+      (a.ok = true →
+        joinFrom b (fails ++ a :: rest) n ws le =
+          ⟨.joined, n + fails.length + 1, ws ++ joinPrefixWaits b fails⟩) ∧
+      (a.ok = false → b.attempts + fails.length = b.retries + 1 →
+        joinFrom b (fails ++ a :: rest) n ws le =
+          ⟨.err (if fails = [] then le else some (n + fails.length - 1)), n + fails.length + 1,
+            ws ++ joinPrefixWaits b fails⟩) ∧
+      (a.ok = false → b.attempts + fails.length ≤ b.retries → a.cancelInWait = true →
+        joinFrom b (fails ++ a :: rest) n ws le =
+          ⟨.err (some (n + fails.length)), n + fails.length + 1,
+            ws ++ joinPrefixWaits b fails ++ [jitterWait b' a.jitter]⟩) := by
+  obtain ⟨b', h1, h2⟩ := joinFrom_prefix b fails hf (Or.inr hg) (a :: rest) n ws le
+  obtain ⟨p1, _, _, p4⟩ := runWaits_params b b' _ h1
+  rw [length_joinPrefixWaits] at p4
+  refine ⟨b', h1, ?_, ?_, ?_⟩
+  · intro hok; rw [h2]; simp [joinFrom, hok]
+  · intro hok hfull
+    have hex : exhausted b' = true := by rw [exhausted_iff]; omega
+    rw [h2]; simp only [joinFrom, hok, Bool.false_eq_true, if_false]
+    rw [(step_abort b' _).mpr hex]
+  · intro hok hle hw
+    have hex : exhausted b' = false := by
+      cases hx : exhausted b' with
+      | false => rfl
+      | true => rw [exhausted_iff] at hx; omega
+    rw [h2]; simp only [joinFrom, hok, Bool.false_eq_true, if_false]
+    rw [step_of_ok b' _ hex (okWait_jitterWait b' a.jitter)]
+    simp [hw]
+
 end Piko.Backoff
